@@ -90,7 +90,7 @@ Params(f) ==
     [] f = "RadShock" -> \* Cv in units of the default 1.4472799784454e12 erg/(g eV)
                          [solver |-> Pick({"ED", "nED", "LM_nED", "Sn"}, {"FLD_LP", "FLD_1", "FLD_2"}), M0 |-> Pick({<<6, 5>>, <<2, 1>>}, {<<21, 20>>, <<3, 1>>, <<5, 1>>}),
                           gamma |-> Pick({<<5, 3>>, <<7, 5>>}, {}), Cv |-> Pick({<<1, 1>>, <<1, 2>>}, {}), Tref |-> Pick({<<100, 1>>, <<200, 1>>}, {}),
-                          rho0 |-> Pick({<<1, 1>>}, {<<1, 2>>}),
+                          rho0 |-> Pick({<<1, 1>>, <<2, 1>>}, {<<1, 2>>}),
                           opac |-> {"constant", "lowrie", "kramers+scattering"}]      \* cross-section coefficients and exponents (resolved by the driver)
     [] f = "SuOlson" -> [epsilon |-> Pick({<<1, 1>>, <<1, 10>>}, {<<2, 1>>, <<1, 2>>}), opac |-> Pick({<<1, 1>>, <<5, 2>>}, {}),
                          trad_bc_ev |-> Pick({<<1000, 1>>, <<300, 1>>}, {})]
@@ -131,7 +131,7 @@ TimesOf(f, p) ==
     [] f \in {"Cog6", "Cog18"} -> {<<p.tau[1] * x[1], p.tau[2] * x[2]>> : x \in Pick({<<1, 4>>, <<-1, 2>>}, {<<4, 5>>})}  \* |t| < tau
     [] f = "Cog7" -> {<<p.tau[1] * x[1], p.tau[2] * x[2]>> : x \in Pick({<<1, 4>>, <<1, 2>>}, {<<4, 5>>})}              \* 0 < t < tau (t <= 0 returns NaN as documented)
     [] f = "Cog20" -> Pick({<<3, 10>>, <<17, 10>>}, {<<1, 1>>})
-    [] f \in RiemannFams -> Pick({<<1, 4>>}, {<<2, 1>>})
+    [] f \in RiemannFams -> Pick({<<3, 10>>}, {<<1, 4>>, <<2, 1>>})       \* (1/4 is the constructors' default end time: a solver that ignored the requested time would not be noticed there)
     [] f = "Sedov" -> Pick({<<1, 2>>, <<1, 1>>}, {<<17, 10>>})
     [] f = "EHEP"  -> Pick({<<1, 2>>, <<2, 1>>, <<5, 1>>}, {<<8, 1>>})
     [] f = "Mader" -> Pick({<<3, 1>>, <<5, 1>>}, {})
@@ -158,7 +158,9 @@ Defined(f, p, t) ==
   CASE f \in RiemannFams -> /\ ~(QEq(p.pl, p.pr) /\ QEq(p.ul, p.ur))                   \* a pure contact has no acoustic waves
                             /\ ~(QEq(p.pl, p.pr) /\ QEq(p.rl, p.rr) /\ QEq(p.gl, p.gr))  \* mirror-symmetric data: no contact
     \* the discrete-ordinates solver takes 20 s for M0 = 1.2 and minutes beyond: one configuration in the quick tier, weak shocks in the thorough tier
-    [] f = "RadShock" -> p.solver = "Sn" => /\ QLe(p.M0, <<6, 5>>) /\ p.opac = "constant"
+    [] f = "RadShock" -> \* quick tier: the non-default density goes with the non-default specific heat (keeps the number of configurations)
+                         /\ (Tier = "quick" => (QEq(p.rho0, <<1, 1>>) <=> QEq(p.Cv, <<1, 1>>)))
+                         /\ p.solver = "Sn" => /\ QLe(p.M0, <<6, 5>>) /\ p.opac = "constant"
                                            /\ (Tier = "quick" => QEq(p.gamma, <<5, 3>>) /\ QEq(p.Cv, <<1, 1>>) /\ QEq(p.Tref, <<100, 1>>))
     [] f = "Riemann2D" -> ~(QEq(p.pB, p.pT) /\ QEq(p.thB, p.thT))     \* equal pressures and directions: a pure slip line, no waves
     [] f = "BBNoh" -> p.eos # "ideal" => p.symmetry = 0     \* with a non-ideal EOS the cold converging inflow is not an EOS state (section 7)
